@@ -194,15 +194,13 @@ impl Report
         let brief: Vec<String> = ["states", "transitions", "traces_validated_against_impl", "schedules", "evaluations", "max_depth", "exhaustive"]
             .iter().filter_map(|k| self.coverage.get(*k).map(|v| format!("{}={}", k, v))).collect();
         println!("{} [{}] {} wall={:.1}s violations={} known={}", self.property, self.tier, brief.join(" "), wall, new_violations, known_hits);
-        if !self.machinery_errors.is_empty()
+        for m in &self.machinery_errors
         {
-            for m in &self.machinery_errors
-            {
-                eprintln!("machinery error: {}", m);
-            }
-            return 2;
+            eprintln!("machinery error: {}", m);
         }
-        if new_violations > 0 { 1 } else { 0 }
+        // a violation that was found and replayed is a verdict whatever else went wrong around it;
+        // machinery errors alone are never a verdict
+        if new_violations > 0 { 1 } else if !self.machinery_errors.is_empty() { 2 } else { 0 }
     }
 }
 
